@@ -343,4 +343,29 @@ def ref_index_many(indices, cls_default, result):
     return result.name == want_name
 
 
-REFS = dict(ref_index_many=ref_index_many, ref_sort_order_by_key=ref_sort_order_by_key, ref_frame_equals=ref_frame_equals, ref_frame_assign_series=ref_frame_assign_series, ref_dtype_per_depth=ref_dtype_per_depth, ref_ih_view=ref_ih_view, ref_ih_coherent=ref_ih_coherent, ref_series_assign=ref_series_assign, ref_has_missing=ref_has_missing, ref_index_equals=ref_index_equals, ref_series_equals=ref_series_equals, ref_set_fold=ref_set_fold, labels_of_array=labels_of_array, ref_map_slice_args=ref_map_slice_args, ref_windows=ref_windows, observed_windows=observed_windows, windows_agree=windows_agree, ref_tb_equals=ref_tb_equals, ref_slices_from_targets=ref_slices_from_targets)
+def ref_consolidate(raw_blocks, yields):
+    """the consolidated blocks present, column by column, the columns of the raw blocks: same dtype, same values"""
+    import numpy as np
+
+    def columns(blocks):
+        out = []
+        for b in blocks:
+            a = getattr(b, 'a', b)
+            if a.ndim == 1:
+                out.append(a)
+            else:
+                out.extend(a[:, j] for j in range(a.shape[1]))
+        return out
+    src, got = columns(raw_blocks), columns(yields)
+    if len(src) != len(got):
+        return False
+    for x, y in zip(src, got):
+        if x.dtype != y.dtype or len(x) != len(y):
+            return False
+        for u, v in zip(x.tolist() if x.dtype.kind != 'O' else list(x), y.tolist() if y.dtype.kind != 'O' else list(y)):
+            if not (u == v or (u != u and v != v)):
+                return False
+    return True
+
+
+REFS = dict(ref_consolidate=ref_consolidate, ref_index_many=ref_index_many, ref_sort_order_by_key=ref_sort_order_by_key, ref_frame_equals=ref_frame_equals, ref_frame_assign_series=ref_frame_assign_series, ref_dtype_per_depth=ref_dtype_per_depth, ref_ih_view=ref_ih_view, ref_ih_coherent=ref_ih_coherent, ref_series_assign=ref_series_assign, ref_has_missing=ref_has_missing, ref_index_equals=ref_index_equals, ref_series_equals=ref_series_equals, ref_set_fold=ref_set_fold, labels_of_array=labels_of_array, ref_map_slice_args=ref_map_slice_args, ref_windows=ref_windows, observed_windows=observed_windows, windows_agree=windows_agree, ref_tb_equals=ref_tb_equals, ref_slices_from_targets=ref_slices_from_targets)
